@@ -1,5 +1,6 @@
 """C06 - HTTP matching and selection.  Ops: hmatch (function level), fphttp (API level: database text + payload), sighttp."""
 import itertools
+import os
 from .. import httpgen
 
 RULE = ("hmatch ops: (signature text, payload) -> http_signatures_match and headers_match; exhaustive small scope: signature header lists of length <= 3 x message header lists of "
@@ -55,7 +56,7 @@ def run(ctx):
     ctx.correspond(ops, nontrivial=lambda l, a: a.startswith("sig=1") or "hdr=1" in a, label="derived", tagger=lambda l, a: a[:11])
     # 3. signature parsing
     ops = []
-    for line in open("/repo/pyp0f/data/p0f.fp"):
+    for line in open(os.path.join(os.environ.get("PYP0F_REPO", "/repo"), "pyp0f/data/p0f.fp")):
         if line.startswith("sig") and "[" in line:
             ops.append("sighttp\t" + hx(line.split("=", 1)[1].strip()))
     for _ in range(ctx.n(5000, 100000)):
